@@ -293,7 +293,8 @@ def gen_engine_spec(rng, rated, curve_emissions=None, dual=None, speed=None):
         else:             # same type, other origin
             others = [o for (t, o) in FUELS_ENGINE if t == e["fuel_type"] and o != e["fuel_origin"]]
             pilot = (e["fuel_type"], others[0] if others else e["fuel_origin"])
-        e["dual"] = {"bspfc": gen_value_curve(rng, 1, 12), "pilot_type": pilot[0], "pilot_origin": pilot[1]}
+        e["dual"] = {"bspfc": [0.0] if rng.random() < 0.1 else gen_value_curve(rng, 1, 12),      # 0 g/kWh: no pilot fuel in this mode
+                     "pilot_type": pilot[0], "pilot_origin": pilot[1]}
     return e
 
 
